@@ -850,6 +850,13 @@ def fam_recurse(rnd, i):
                 a = rnd.choice(cands)
                 b = a[:-1] + (rnd.choice(["x", "dir", "su", "sub3", "dir11"]) + str(cnt[0]),)
                 cnt[0] += 1
+                if rnd.random() < 0.12:
+                    # moved away and back, and a new directory made under the intermediate name, before any of it is handled:
+                    # the pending "moved to b" must not be taken for the new b (found by the bounded model MC_Recurse)
+                    steps += [fs("rename", a, to=b), fs("rename", b, to=a), fs("mkdir", b), drain(w),
+                              fs("create", a + ("fa",)), fs("create", b + ("fb",)), drain(w)]
+                    dirs.append(b)
+                    continue
                 if rnd.random() < 0.15:
                     # renamed twice before the first move is handled (the consumer is not reading)
                     c = a[:-1] + ("twice%d" % cnt[0],)
